@@ -10,7 +10,7 @@ documents are only abstracted under the identity gamma.
 import math
 from fractions import Fraction
 
-from .absval import NAN, PINF, NINF, keyn
+from .absval import NAN, PINF, NINF, EMPTYNAME, keyn
 from .project import rat
 
 
@@ -47,9 +47,15 @@ def _bagkey(v):
     return None
 
 
+def _namekey(k):
+    return isinstance(k, str) and (k == "name" or k.endswith(":name"))
+
+
 def tag(v, bagmap=True):
     if isinstance(v, dict):
-        return {"j": "obj", "v": {str(k): tag(x, bagmap) for k, x in v.items()}}
+        # (an explicit empty quantity name is a name: the model's "" means `no name`, absval.EMPTYNAME this one)
+        return {"j": "obj", "v": {str(k): ({"j": "str", "v": EMPTYNAME} if x == "" and isinstance(x, str) and _namekey(k)
+                                           else tag(x, bagmap)) for k, x in v.items()}}
     if isinstance(v, (list, tuple)):
         if bagmap and v and all(isinstance(e, dict) and set(e) == {"w", "v"} for e in v):
             keys = [_bagkey(e["v"]) for e in v]
@@ -71,7 +77,8 @@ def tag(v, bagmap=True):
 def untag(t):
     j, v = t["j"], t["v"]
     if j == "obj":
-        return {k: untag(x) for k, x in (v.items() if isinstance(v, dict) else [])}
+        return {k: ("" if _namekey(k) and x == {"j": "str", "v": EMPTYNAME} else untag(x))
+                for k, x in (v.items() if isinstance(v, dict) else [])}
     if j == "arr":
         return [untag(x) for x in v]
     if j == "num":
